@@ -82,7 +82,8 @@ def gen_wq(rng, tier):
                 lw[0] = 0.0
         out.append({"values": vals, "logw": lw, "qs": [0.0, 0.05, 0.2, 0.5, 0.5, 0.8, 0.95, 1.0], "kind": kind,
                     # the weights are normalised inside the function: a common offset must not matter (C17_quantile_shift)
-                    "shift": rng.choice([0.0, 50.0, -600.0, -745.0, -1000.0, 800.0, -2000.0, 5000.0])})
+                    "shift": rng.choice([0.0, 50.0, -600.0, -745.0, -1000.0, 800.0, -2000.0, 5000.0]),
+                    "perm": rng.sample(range(n), n) if rng.random() < 0.5 else None})
     return out
 
 
@@ -219,6 +220,11 @@ def run(chk):
             continue
         if "method_error" in r:
             chk.count("method_raised:" + r["method_error"])
+            chk.count(f"method_raised:{c['method']}:{c['wkind']}")
+            # a method may give up only when there is nothing to rank: every weight is zero
+            if any(w > -INF for w in c["logW"]):
+                chk.fail("C17:method-raised", f"the {c['method']} threshold method raised {r['method_error']} on a live set with "
+                         f"non-zero weights ({c['wkind']})", {"case": c, "observed": r})
             continue
         chk.count("method:" + c["method"])
         chk.count("weights:" + c["wkind"])
@@ -249,6 +255,9 @@ def run(chk):
         scale = max(1.0, max(abs(v) for v in c["values"]))
         if "q0" in r and any(not abs(a - b) <= 1e-7 * scale for a, b in zip(r["q"], r["q0"])):
             chk.fail("C17:quantile-shift", f"weighted quantile changes when {c['shift']} is added to every log-weight: {r['q0']} -> {r['q']}",
+                     {"case": c, "observed": r})
+        if "qp" in r and any(not abs(a - b) <= 1e-7 * scale for a, b in zip(r["q"], r["qp"])):
+            chk.fail("C17:quantile-order", f"weighted quantile depends on the order in which (value, weight) pairs are given: {r['q']} vs {r['qp']}",
                      {"case": c, "observed": r})
         if "qu" in r and any(not abs(a - b) <= 1e-7 * scale for a, b in zip(r["q"], r["qu"])):
             chk.fail("C17:quantile-equal-weights", f"equal log-weights {c['logw'][0] + c.get('shift', 0.0)} give {r['q']}, the unweighted quantile is {r['qu']}",
